@@ -192,7 +192,11 @@ def conv_rules(index, conv, tabs, rep):
             it, selfobj = new_interp(index, conv)
             try:
                 from .core import bind_named
-                a_, k_ = bind_named(fn, [("from_units", PList(fr)), ("to_units_kcals", to[0]), ("to_units_fat", to[1]), ("to_units_protein", to[2])])
+                if len(fn.args.args) == 3:
+                    # (from triple, to triple): the three target units handed over as one list
+                    a_, k_ = bind_named(fn, [("from_units", PList(fr)), ("to_units", PList(list(to)))])
+                else:
+                    a_, k_ = bind_named(fn, [("from_units", PList(fr)), ("to_units_kcals", to[0]), ("to_units_fat", to[1]), ("to_units_protein", to[2])])
                 res = it.call_function(fn, a_, k_, selfobj)
             except (Unsupported, Fork, MonthSplit, Abort) as e:
                 raise AnalysisError(f"get_conversion outside the analysed fragment: {e!r}")
